@@ -30,7 +30,7 @@ def run_property(rep, prop, tier, rng, judge, rule, nspecs=None, opts=None, tag=
     nrel = nprog = ntie = 0
     first_tie = None
     hyp = {h: 0 for h in ("supported", "plansok", "sizeexact", "finite", "outputok", "elemssure")}
-    uncovered, not_compiled, samples = [], [], []
+    uncovered, not_compiled, samples, heavy_skipped = [], [], [], []
     for ci, res in enumerate(t2.campaign_chunks(tier, rep.seed, nspecs=nspecs, opts=opts, tag=tag)):
         for c in res["cases"]:
             iv, ia = t4.split_reply(c["impl"])
@@ -72,6 +72,7 @@ def run_property(rep, prop, tier, rng, judge, rule, nspecs=None, opts=None, tag=
             if s["status"] != "ok":
                 not_compiled.append({"chunk": ci, "k": k, "status": s["status"]})
         nprog += len(res["specs"])
+        heavy_skipped += [{"chunk": ci, "spec": k, "type": t, "typical_words": w} for k, t, w in res.get("skipped_heavy", [])]
         if len(samples) < 6:
             samples += [{"spec": res["specs"][c["k"]]["text"][:200], "type": c["ty"], "family": c["fam"], "input_hex": c["hex"][:120],
                          "kind": c["kind"], "impl": c["impl"][:200]} for c in res["cases"][:: max(1, len(res["cases"]) // 6)]][:6 - len(samples)]
@@ -81,6 +82,8 @@ def run_property(rep, prop, tier, rng, judge, rule, nspecs=None, opts=None, tag=
     rep.assumptions += ["Rust semantics of the emitted subset modelled in Fx/Eval.lean (tied by this run)", "bytes crate modelled", "A-usize"]
     # specifications whose generated module did not compile are C07's business; they are not silently dropped
     rep.cov["specs_not_compiled"] = not_compiled
+    # types whose every value is enormous (nested fixed-length arrays): no value is generated for them, their components are exercised
+    rep.cov["types_too_large_to_enumerate"] = heavy_skipped[:50]
     rep.cov["theorem_hypotheses_hold_on"] = dict(hyp, of=nprog)
     if uncovered and nviol == 0 and not ntie:
         rep.violation({"kind": "theorem-hypothesis-fails", "what": "a specification of the supported subset compiled, but a decidable hypothesis of the specification- and plan-level theorems "
